@@ -375,7 +375,7 @@ func (p *PathState) Concretize(t *Term, what string) uint64 {
 	r := p.query(p.C.Bool(true))
 	if r == Unsat {
 		p.endQuery()
-		panic(pathAbort{reason: "dead", detail: "enumeration exhausted"})
+		panic(pathAbort{reason: "enum-end", detail: "enumeration exhausted"})
 	}
 	if r == Unknown {
 		p.endQuery()
@@ -471,6 +471,13 @@ func (p *PathState) Obligation(c *Term, kind, label, detail string) {
 	if c.IsTrue() {
 		p.stats.Discharged++
 		p.stats.TrivialOblig++
+		return
+	}
+	if p.S == nil {
+		if !c.IsConst() {
+			panic(engineErr("symbolic obligation %s in concrete mode", label))
+		}
+		p.stats.Violations = append(p.stats.Violations, &Violation{Label: label, Kind: kind, Detail: detail, Path: p.traceString()})
 		return
 	}
 	neg := p.C.Not(c)
